@@ -46,6 +46,9 @@ type Options struct {
 	// TwoStep gives every Write a begin and an end scheduling point, so that
 	// overlapping calls are observable.
 	TwoStep bool
+	// EOFWithData: a Read that drains the last bytes of a stream whose writer has closed returns
+	// them together with io.EOF (as io.Reader allows and buffered/TLS-style transports do).
+	EOFWithData bool
 }
 
 type half struct {
@@ -188,6 +191,9 @@ func (e *End) Read(p []byte) (n int, err error) {
 			copy(p, e.rd.buf[:n])
 			e.rd.buf = e.rd.buf[n:]
 			e.rd.taken += n
+			if e.p.opts.EOFWithData && err == nil && len(e.rd.buf) == 0 && e.rd.wclosed {
+				err = io.EOF
+			}
 		case e.rd.wclosed:
 			n, err = 0, io.EOF
 		}
